@@ -49,6 +49,8 @@ def rand_sp(rng):
         sp["sp"] = {"a": rng.choice(TYPED)}
     elif r < 0.16:
         sp["doc"] = {"sp": {"a": rng.choice(TYPED)}}
+    elif r < 0.22:
+        sp[""] = {"a": rng.choice(TYPED)}  # the empty string is a legal key, also for a mapping
     return sp
 
 
